@@ -1,18 +1,26 @@
 import Cfdm.Driver.Parse
 import Cfdm.Model.Heap
+import Cfdm.Model.HeapSites
+import Cfdm.Model.HeapViews
 /-
 Driver for C04 (heap model).
 
-  C04.share how=<copy|nodata|noarray> tree=<T>
+  C04.share how=<copy|nodata|noarray|pickle|getitem|shallow|view|domain> tree=<T>
       → shared=[a,…] wf=<0|1> cells=<n>
         the cells of x (pre-order numbers) that the model's `x.copy()` still reaches; wf = no cell of x
-        sits both at a re-created and at a handed-over position
+        sits both at a re-created and at a handed-over position.  pickle: a pickle round trip (`deepT`);
+        getitem: `x[indices]` (copy, then the data of the object, of its bounds and of its interior ring are
+        replaced by `Data.copy(array=False)` + a new array); shallow: `Constructs.shallow_copy()`;
+        view: `Constructs._view()`; domain: `Field.domain` (a new Domain around a view of the constructs)
 
   C04.meth how=<copy|nodata|noarray> who=<copy|src> tree=<T> writes=[<w>;…]
-      → other=<same|changed> disc=<ok|broken>
+      → other=<same|changed> disc=<ok|broken> expl=<ok|none:…>
         y = model copy of x; the observed primitive writes of one public call are replayed on the receiver
         (who=copy: y, who=src: x) at the same component paths; `other` = does the fingerprint of the other
-        object change; `disc` = did every write go through a live path (never through a handed-over cell)
+        object change; `disc` = did every write go through a live path (never through a handed-over cell);
+        `expl` = is every observed write an instance of an in-place mutation site that the translator extracted
+        from the code (Cfdm/Generated/HeapSites.lean) — relative to the innermost cfdm object on the way to the
+        written cell; writes inside foreign objects (scipy, netCDF4 …) are not judged
 
 <T>  = i<hex> | b<hex> | X<hex> | ^<n> | @<path> | <K>{key:<T>,…}
 <K>  = D | L | U | S | M | C | O<f><Class>      f ∈ c n k f s o   (C takes the family of the enclosing O)
@@ -153,19 +161,49 @@ def insertSorted (a : Nat) : List Nat → List Nat
 
 def sortNat (l : List Nat) : List Nat := l.foldl (fun acc a => insertSorted a acc) []
 
+def isDataObj : T → Bool
+  | .node _ (.obj _ cls) _ => cls == "Data"
+  | _ => false
+
+/-- `x[indices]`: for a Data object `copy(array=False)` (+ a new array); for a construct a copy whose data, bounds
+data and interior-ring data are replaced by such subspaced Data objects; for a field a copy whose own data are -/
+def getitemModel (x : T) (n : Nat) : T :=
+  if isDataObj x then (copyT (cfdmTbl ["array"]) x n).1 else
+  let c := copyT cfdmTbl x n
+  let parents : List (List Step) :=
+    [[.attr], [.attr, .comp "bounds", .attr], [.attr, .comp "interior_ring", .attr]]
+  (parents.foldl (fun (acc : T × Nat) p =>
+    match resolve x (p ++ [.comp "data"]), targetAddr acc.1 p with
+    | some d, some a =>
+      let d' := copyT (cfdmTbl ["array"]) d acc.2
+      (applyT a (.setKey "data" d'.1) acc.1, d'.2)
+    | _, _ => acc) c).1
+
+def shareLine (x y : T) (tbl : Tbl) (n : Nat) : String :=
+  let ya := y.addrs
+  let shared := sortNat (dedup (x.addrs.filter (fun a => ya.contains a)))
+  let kept := keptT tbl x
+  let wf := (liveT tbl x).all (fun a => !kept.contains a)
+  s!"shared={showNatList shared} wf={if wf then 1 else 0} cells={n}"
+
 def runShare (kv : KV) : String :=
   match kv.get? "how", kv.get? "tree" with
   | some how, some txt =>
-    match dropKeysOf how, parseTree txt with
-    | some dk, some (x, n) =>
-      let tbl := cfdmTbl dk
-      let y := (copyT tbl x n).1
-      let ya := y.addrs
-      let shared := sortNat (dedup (x.addrs.filter (fun a => ya.contains a)))
-      let kept := keptT tbl x
-      let wf := (liveT tbl x).all (fun a => !kept.contains a)
-      s!"shared={showNatList shared} wf={if wf then 1 else 0} cells={n}"
-    | _, _ => "bad-op"
+    match parseTree txt with
+    | some (x, n) =>
+      if how == "pickle" then shareLine x (deepT x n).1 cfdmTbl n
+      else if how == "getitem" then shareLine x (getitemModel x n) cfdmTbl n
+      else if how == "shallow" then shareLine x (copyT shallowCopyTbl x n).1 shallowCopyTbl n
+      else if how == "view" then shareLine x (viewT x n).1 cfdmTbl n
+      else if how == "domain" then
+        match domainOfT x n with
+        | some (y, _) => shareLine x y cfdmTbl n
+        | none => "bad-op"
+      else
+        match dropKeysOf how with
+        | some dk => shareLine x (copyT (cfdmTbl dk) x n).1 (cfdmTbl dk) n
+        | none => "bad-op"
+    | none => "bad-op"
   | _, _ => "bad-op"
 
 /-- is the raw key path live in the sense of `AllLive` (all steps but the last re-created on copy,
@@ -208,6 +246,60 @@ def parseWrites (recv : T) (n : Nat) (s : String) : Option (List RawWrite × Nat
     let (rw, n') ← parseWrite recv acc.2 w
     some (acc.1 ++ [rw], n')) ([], n)
 
+/-! ### is an observed write an instance of a site extracted from the code? -/
+def famLetter : Fam → String
+  | .container => "c" | .nparray => "n" | .constructs => "k" | .filearray => "f" | .subarray => "s" | .opaque => "o"
+
+/-- (family of the innermost cfdm object on the way to — or at — the written cell, keys below it, was a foreign
+object crossed on the way?) -/
+def innermost : T → List String → Option Fam → List String → Bool → Option Fam × List String × Bool
+  | .node _ (.obj f _) ks, path, fam, rel, opq =>
+    let (fam', rel', opq') := if f == .opaque then (fam, rel, true) else (some f, [], false)
+    match path with
+    | [] => (fam', rel', opq')
+    | k :: p =>
+      match ks.get? k with
+      | some c => innermost c p fam' (rel' ++ [k]) opq'
+      | none => (fam', rel' ++ (k :: p), opq')
+  | .node _ _ ks, k :: p, fam, rel, opq =>
+    (match ks.get? k with
+     | some c => innermost c p fam (rel ++ [k]) opq
+     | none => (fam, rel ++ (k :: p), opq))
+  | _, path, fam, rel, opq => (fam, rel ++ path, opq)
+
+def keysMatch : List (Option String) → List String → Bool
+  | [], [] => true
+  | none :: r, _ :: p => keysMatch r p
+  | some k :: r, k' :: p => k == k' && keysMatch r p
+  | _, _ => false
+
+def updMatches (s : Site) : Upd → Bool
+  | .setKey k _ => !s.removes && (match s.key with | some l => l == k | none => true)
+  | .delKey k => s.removes && (match s.key with | some l => l == k | none => true)
+  | .poke _ => true
+
+def siteExplains (fam : Fam) (rel : List String) (u : Upd) (s : Site) : Bool :=
+  s.fam == fam && updMatches s u &&
+  (match s.root, rel with
+   | .obj, [] => true
+   | .comps, ["_components"] => true
+   | .comp c, "_components" :: c' :: rest => (match c with | some l => l == c' | none => true) && keysMatch s.keys rest
+   | .attr a, a' :: rest => a != "_components" && a == a' && keysMatch s.keys rest
+   | _, _ => false)
+
+def updTag : Upd → String
+  | .setKey k _ => "s:" ++ k | .delKey k => "d:" ++ k | .poke _ => "p"
+
+/-- "" when the write is explained (or is inside a foreign object), else a description -/
+def unexplained (recv : T) (path : List String) (u : Upd) : String :=
+  let (fam, rel, opq) := innermost recv path none [] false
+  if opq then "" else
+  match fam with
+  | none => ""          -- the receiver is not a cfdm object
+  | some f =>
+    if codeSites.any (fun s => match s with | some s => siteExplains f rel u s | none => false) then ""
+    else s!"{famLetter f}:/{"/".intercalate rel}:{updTag u}"
+
 def runMeth (kv : KV) : String :=
   match kv.get? "how", kv.get? "who", kv.get? "tree", kv.get? "writes" with
   | some how, some who, some txt, some ws =>
@@ -227,7 +319,9 @@ def runMeth (kv : KV) : String :=
         if targets.length != rws.length then "bad-op" else
         let other' := applyAll targets other
         let same := (obsT other').beq (obsT other)
-        s!"other={if same then "same" else "changed"} disc={if disc then "ok" else "broken"}"
+        let unex := (rws.map (fun w => unexplained recv w.path w.upd)).filter (· ≠ "")
+        let expl := match unex with | [] => "ok" | e :: _ => "none:" ++ e
+        s!"other={if same then "same" else "changed"} disc={if disc then "ok" else "broken"} expl={expl}"
     | _, _ => "bad-op"
   | _, _, _, _ => "bad-op"
 
